@@ -635,6 +635,10 @@ def analyse(sc, blocks, alg, stats=None):
             for sid in list(fol):
                 if sid not in att and sid not in me:
                     fol[sid] = None
+                elif sc.sessions.get(sid) not in auth:
+                    # the subscription is gone: being told so ({pres what=gone} on 'me', {ctrl 205}) is presence
+                    # delivery, not permission tracking (see findings/C05.md, observation 2)
+                    fol[sid] = None
             for sid, cur in sorted(fol.items()):
                 us = sc.sessions.get(sid)
                 if cur is None or sid in blocked or us in tainted or None in cur:
@@ -803,8 +807,8 @@ def run_layer2(ctx):
                     detail = d2[0]
             except Exception:
                 pass
-        ctx.violation("monitor", law, "law %s fails on the implementation's trace (%d scenarios this run): %s" % (law, len(lst), detail),
-                      {"head": small.head, "ops": small.ops, "law": law, "detail": detail, "scenarios_failing": len(lst), "layer": 2})
+        ctx.violation("monitor", law, "law %s fails on the implementation's trace (%d scenarios this run): %s" % (law, len(set(x[0].id for x in lst)), detail),
+                      {"head": small.head, "ops": small.ops, "law": law, "detail": detail, "scenarios_failing": len(set(x[0].id for x in lst)), "layer": 2})
     # ---- correspondence with the extracted model
     items = []
     for sc in scns:
